@@ -19,7 +19,7 @@ CHILD = r'''
 import sys, os, json
 sys.path.insert(0, %(verif)r)
 import coverage
-cov = coverage.Coverage(data_file=%(data)r, source=["/tmp/repo-clean/gfapy"], branch=False)
+cov = coverage.Coverage(data_file=%(data)r, source=[os.environ.get("GFAPY_REPO", "/repo") + "/gfapy"], branch=False)
 cov.start()
 from sim import engine, core
 from sim.rng import Streams
@@ -60,7 +60,7 @@ def main():
     for pid, p in procs:
         p.wait()
     import coverage
-    cov = coverage.Coverage(data_file=os.path.join(OUT, ".coverage"), source=["/tmp/repo-clean/gfapy"])
+    cov = coverage.Coverage(data_file=os.path.join(OUT, ".coverage"), source=[os.environ.get("GFAPY_REPO", "/repo") + "/gfapy"])
     cov.combine([os.path.join(OUT, ".coverage.%s" % pid) for pid in props], keep=True)
     cov.save()
     with open(os.path.join(OUT, "report.txt"), "w") as f:
